@@ -11,6 +11,7 @@ import (
 	"github.com/gr33nbl00d/caddy-revocation-validator/core/verifhook"
 	"github.com/gr33nbl00d/caddy-revocation-validator/crl/crlreader"
 	"github.com/syndtr/goleveldb/leveldb"
+	"github.com/syndtr/goleveldb/leveldb/opt"
 	"go.uber.org/zap"
 	"math/big"
 	"os"
@@ -221,7 +222,13 @@ func (S *LevelDbStore) Update(store CRLStore) error {
 // reopenAfterFailedUpdate opens the database of this store again after an update failed half way.
 // If this is not possible the store stays closed and every read reports an error.
 func (S *LevelDbStore) reopenAfterFailedUpdate() {
-	db, err := openDbWithRetries(S.LevelDBPath, S.Logger)
+	//only an existing database may be opened here. If the database directory is gone a new empty database
+	//must not take its place, lookups would find no entries and report every certificate as not revoked
+	var db *leveldb.DB
+	err := utils.Retry(retryCount, retryDelay, S.Logger, func() (err error) {
+		db, err = leveldb.OpenFile(S.LevelDBPath, &opt.Options{ErrorIfMissing: true})
+		return err
+	})
 	if err != nil {
 		S.Logger.Warn("failed to reopen database after a failed update", zap.String("path", S.LevelDBPath), zap.Error(err))
 		return
